@@ -279,3 +279,36 @@ func VMVerifyProgLine(bc *tengo.Bytecode, globalsSize int) string {
 	}
 	return L("verifyprog", N(globalsSize), "("+strings.Join(consts, " ")+")", vmFnSexp(bc.MainFunction))
 }
+
+// RenumLine builds the `renum` driver line: is `o` the program `u` with its constant pool renumbered by `cm`
+// (constant k of u is constant cm[k] of o) and the first operand of every CONST / CLOSURE rewritten accordingly
+// (Tengo.Model.VM.checkRenum; a passed check gives corresponding runs of the whole-VM model for every input,
+// Tengo.Props.C12VM)? `cm` is untrusted by the model. ok=false: a constant the model cannot hold, a function
+// constant that occurs twice in `u` (the wire format has no pointer sharing), or too large for the quadratic check.
+func RenumLine(u, o *tengo.Bytecode, cm []int, maxBytes, maxConsts int) (string, bool) {
+	if len(u.Constants) > maxConsts || len(cm) != len(u.Constants) {
+		return "", false
+	}
+	total := 0
+	seen := map[*tengo.CompiledFunction]bool{}
+	for _, f := range Functions(u) {
+		total += len(f.Instructions)
+		if seen[f] {
+			return "", false
+		}
+		seen[f] = true
+	}
+	if total > maxBytes {
+		return "", false
+	}
+	cu, ok1 := vmConstsSexp(u)
+	co, ok2 := vmConstsSexp(o)
+	if !ok1 || !ok2 {
+		return "", false
+	}
+	idx := make([]string, len(cm))
+	for i, j := range cm {
+		idx[i] = N(j)
+	}
+	return L("renum", cu, vmFnSexp(u.MainFunction), co, vmFnSexp(o.MainFunction), "("+strings.Join(idx, " ")+")"), true
+}
